@@ -441,8 +441,8 @@ Definition pr_recv_fwd (r : pr_rcv) (newcum : Z) (entries : list (Z * Z)) : pr_r
   else if sna32LTE newcum (cum (pr_r_pq r)) then (r, PrrStale)
   else
     let q := advance (pr_r_pq r) newcum in
-    let st1 := fold_left (fun st e => pr_streams_upd (fst e) (fun x => rq_fwd_ordered x (snd e)) st) entries (pr_r_streams r) in
-    let st2 := map (fun kq => (fst kq, rq_fwd_unordered (snd kq) newcum)) st1 in
+    let st1 := fold_left (fun st (e : Z * Z) => pr_streams_upd (fst e) (fun x => rq_fwd_ordered x (snd e)) st) entries (pr_r_streams r) in
+    let st2 := map (fun kq : Z * rq => (fst kq, rq_fwd_unordered (snd kq) newcum)) st1 in
     (pr_after_fwd r q st2, PrrApplied).
 
 (* handleIForwardTSN *)
@@ -451,7 +451,7 @@ Definition pr_recv_ifwd (r : pr_rcv) (newcum : Z) (entries : list (Z * bool * Z)
   else if sna32LTE newcum (cum (pr_r_pq r)) then (r, PrrStale)
   else
     let q := advance (pr_r_pq r) newcum in
-    let st1 := fold_left (fun st e =>
+    let st1 := fold_left (fun st (e : Z * bool * Z) =>
                  let '(sid, u, mid) := e in
                  pr_streams_upd sid (fun x => if u then rq_fwd_unordered_mid x mid else rq_fwd_ordered_mid x mid) st)
                entries (pr_r_streams r) in
